@@ -21,8 +21,10 @@ import (
 	"encoding/json"
 	"flag"
 	"fmt"
+	"hash/maphash"
 	"net"
 	"os"
+	"runtime/debug"
 	"sort"
 	"strings"
 	"sync"
@@ -49,6 +51,7 @@ type hEntry struct {
 type hVariant struct {
 	kind  string // "base", "pass-changed[0]", "removed[1]", "swapped" ...
 	class string // kind without the entry index
+	descr string // "reload:" + class
 	list  []hEntry
 	js    []byte
 	users []conf.AuthInternalUser
@@ -238,7 +241,7 @@ func hVariants(base []hEntry) []hVariant {
 		if i := strings.IndexByte(kind, '['); i >= 0 {
 			class = kind[:i]
 		}
-		out = append(out, hVariant{kind: kind, class: class, list: l, js: js, users: hDecode(js, len(l))})
+		out = append(out, hVariant{kind: kind, class: class, descr: "reload:" + class, list: l, js: js, users: hDecode(js, len(l))})
 	}
 	add("base", base)
 	for i, e := range base {
@@ -404,9 +407,86 @@ func hFamilies(thorough bool) []*hFamily {
 // ---------------------------------------------------------------- the phase
 
 type hLocal struct {
-	evals    int64
-	distinct map[string]struct{}
-	hist     map[string]int64
+	evals int64
+	seen  map[uint64]struct{} // hashes of the class names this worker has met
+	hist  map[string]int64
+	all   *hClasses
+}
+
+// the class names of all workers (a worker comes here once per class it meets for the first time)
+type hClasses struct {
+	mu   sync.Mutex
+	seed maphash.Seed
+	m    map[string]struct{}
+}
+
+var (
+	hAuthDescr = [3][2]string{
+		{"auth:other-credentials=reject", "auth:other-credentials=admit"},
+		{"auth:same-credentials=reject", "auth:same-credentials=admit"},
+		{"auth:same-request=reject", "auth:same-request=admit"},
+	}
+	hReloadCount = []string{"histories_with_0_reloads", "histories_with_1_reload", "histories_with_2_reloads", "histories_with_3_or_more_reloads"}
+)
+
+// class: the name is only built when this worker meets the class for the first time
+func (l *hLocal) class(before []string, verdict, why string) {
+	var h maphash.Hash
+	h.SetSeed(l.all.seed)
+	for _, b := range before {
+		h.WriteString(b)
+		h.WriteByte(' ')
+	}
+	h.WriteString(verdict)
+	h.WriteByte(' ')
+	h.WriteString(why)
+	sum := h.Sum64()
+	if _, ok := l.seen[sum]; ok {
+		return
+	}
+	l.seen[sum] = struct{}{}
+	name := "history {" + strings.Join(before, " ") + "} -> " + verdict + " [" + why + "]"
+	l.all.mu.Lock()
+	l.all.m[name] = struct{}{}
+	l.all.mu.Unlock()
+}
+
+// violations of the history phase are collected and reported after the enumeration, so that the example kept for a
+// class is always the same one: the shortest history, and among those the first in enumeration order
+type hViol struct {
+	what   string
+	replay any
+	rank   [3]int64 // (steps, work item, last request)
+	count  int64
+}
+
+type hViols struct {
+	mu sync.Mutex
+	m  map[string]*hViol
+}
+
+func (c *hViols) add(key string, rank [3]int64, describe func() (string, any)) {
+	c.mu.Lock()
+	defer c.mu.Unlock()
+	v := c.m[key]
+	if v == nil {
+		v = &hViol{rank: rank}
+		v.what, v.replay = describe()
+		c.m[key] = v
+	} else if less3(rank, v.rank) {
+		v.rank = rank
+		v.what, v.replay = describe()
+	}
+	v.count++
+}
+
+func less3(a, b [3]int64) bool {
+	for i := range a {
+		if a[i] != b[i] {
+			return a[i] < b[i]
+		}
+	}
+	return false
 }
 
 type hStepOut struct {
@@ -434,6 +514,9 @@ func (ck *checker) runHistories(deadline time.Time) (skipped int64) {
 	}
 	fams := hFamilies(r.Thorough())
 	start := time.Now()
+	// every argon2 verification leaves 8 KiB of garbage and nothing of this phase stays alive: collect early
+	// (main sets 400 for the table-driven phases)
+	defer debug.SetGCPercent(debug.SetGCPercent(50))
 
 	// reference and fresh-Manager tables: one Manager per (list, request)
 	var tableEvals atomic.Int64
@@ -469,8 +552,8 @@ func (ck *checker) runHistories(deadline time.Time) (skipped int64) {
 	// Only histories that END in an authenticate step are run: a history that ends in a reload has nothing to judge, and
 	// the verdicts of the earlier steps of a history are the last steps of its prefixes, which are histories themselves.
 	type item struct {
-		fam    *hFamily
-		prefix []int
+		fam  *hFamily
+		k, x int // k steps; x encodes the first k-1 steps (digits in base A+V)
 	}
 	var items []item
 	perDepth := map[int]int64{}
@@ -483,46 +566,74 @@ func (ck *checker) runHistories(deadline time.Time) (skipped int64) {
 				n *= S
 			}
 			for x := 0; x < n; x++ {
-				prefix := make([]int, k-1)
-				y := x
-				for i := k - 2; i >= 0; i-- {
-					prefix[i] = y % S
-					y /= S
-				}
-				items = append(items, item{f, prefix})
+				items = append(items, item{f, k, x})
 			}
 			perDepth[k] += int64(n) * int64(A)
 			total += int64(n) * int64(A)
 		}
 	}
 
+	// accumulators are handed from work item to work item (one per worker in effect) and merged at the end
+	viols := &hViols{m: map[string]*hViol{}}
+	classes := &hClasses{seed: maphash.MakeSeed(), m: map[string]struct{}{}}
 	var mu sync.Mutex
-	distinct := map[string]struct{}{}
-	hist := map[string]int64{}
-	var evals, skippedItems atomic.Int64
+	var locals []*hLocal
+	pool := make(chan *hLocal, 256)
+	var skippedItems atomic.Int64
 	vcommon.Parallel(len(items), func(i int) {
 		if time.Now().After(deadline) {
 			skippedItems.Add(1)
 			return
 		}
+		var loc *hLocal
+		select {
+		case loc = <-pool:
+		default:
+			loc = &hLocal{seen: map[uint64]struct{}{}, hist: map[string]int64{}, all: classes}
+			mu.Lock()
+			locals = append(locals, loc)
+			mu.Unlock()
+		}
 		it := items[i]
-		loc := &hLocal{distinct: map[string]struct{}{}, hist: map[string]int64{}}
-		steps := append(append([]int{}, it.prefix...), 0)
+		S := len(it.fam.reqs) + len(it.fam.variants)
+		steps := make([]int, it.k)
+		y := it.x
+		for j := it.k - 2; j >= 0; j-- {
+			steps[j] = y % S
+			y /= S
+		}
 		for q := range it.fam.reqs {
-			steps[len(steps)-1] = q
-			ck.runHistory(it.fam, steps, loc)
+			steps[it.k-1] = q
+			ck.runHistory(it.fam, steps, loc, viols, int64(i))
 		}
+		select {
+		case pool <- loc:
+		default: // cannot happen with fewer than 256 workers; the accumulator is in locals anyway
+		}
+	})
+	distinct := classes.m
+	hist := map[string]int64{}
+	var evals atomic.Int64
+	for _, loc := range locals {
 		evals.Add(loc.evals)
-		mu.Lock()
-		for k := range loc.distinct {
-			distinct[k] = struct{}{}
-		}
 		for k, n := range loc.hist {
 			hist[k] += n
 		}
-		mu.Unlock()
-	})
+	}
 	r.Eval(int(evals.Load()))
+	{
+		var vkeys []string
+		for k := range viols.m {
+			vkeys = append(vkeys, k)
+		}
+		sort.Strings(vkeys)
+		for _, k := range vkeys {
+			v := viols.m[k]
+			for n := int64(0); n < v.count; n++ {
+				violation(r, k, v.what, v.replay) // the first call of a class keeps the example, the others count
+			}
+		}
+	}
 
 	keys := make([]string, 0, len(distinct))
 	for k := range distinct {
@@ -567,7 +678,7 @@ func (ck *checker) runHistories(deadline time.Time) (skipped int64) {
 
 // runHistory runs one history (steps: indices < len(reqs) authenticate, the others reload) on ONE Manager that starts
 // with the base list, and judges its last step.
-func (ck *checker) runHistory(f *hFamily, steps []int, loc *hLocal) {
+func (ck *checker) runHistory(f *hFamily, steps []int, loc *hLocal, viols *hViols, item int64) {
 	A := len(f.reqs)
 	m := &auth.Manager{Method: conf.AuthMethodInternal, InternalUsers: f.variants[0].users}
 	cur := 0
@@ -629,35 +740,52 @@ func (ck *checker) runHistory(f *hFamily, steps []int, loc *hLocal) {
 
 	// coverage: distinct class and the situations a Manager with a memory would get wrong
 	{
-		var sb strings.Builder
-		sb.WriteString("history")
+		// class of a history: WHAT happened before the last step (as a set: the kinds of lists installed and, per earlier
+		// authenticate step, its relation to the last request and its verdict), the verdict of the last step and why
+		var beforeArr [8]string
+		before := beforeArr[:0]
 		reloads := 0
 		for i, s := range steps {
 			switch {
 			case s >= A:
 				reloads++
-				sb.WriteString(" reload:" + f.variants[s-A].class)
+				before = append(before, f.variants[s-A].descr)
 			case i < last:
-				rel := "other-credentials"
+				rel := 0
 				if s == qi {
-					rel = "same-request"
+					rel = 2
 				} else if f.reqs[s].sup == q.sup {
-					rel = "same-credentials"
+					rel = 1
 				}
-				sb.WriteString(" auth:" + rel + "=" + f.fresh[inForce[i]][s].verdict())
+				v := 0
+				if f.fresh[inForce[i]][s].admitted {
+					v = 1
+				}
+				before = append(before, hAuthDescr[rel][v])
 			}
 		}
-		sb.WriteString(" -> " + exp.verdict() + " [" + ref.why + "]")
-		loc.distinct[sb.String()] = struct{}{}
-		loc.hist[fmt.Sprintf("histories_with_%d_reloads", reloads)]++
+		for i := 1; i < len(before); i++ { // insertion sort, at most depth-1 elements
+			for j := i; j > 0 && before[j] < before[j-1]; j-- {
+				before[j], before[j-1] = before[j-1], before[j]
+			}
+		}
+		n := 0
+		for i, b := range before {
+			if i == 0 || b != before[i-1] {
+				before[n] = b
+				n++
+			}
+		}
+		loc.class(before[:n], exp.verdict(), ref.why)
+		loc.hist[hReloadCount[min(reloads, len(hReloadCount)-1)]]++
 		if reloads > 0 && f.fresh[0][qi].admitted != exp.admitted {
 			loc.hist["verdict_differs_from_the_one_under_the_base_list"]++
 		}
 		if !exp.admitted && grantsButPassMismatch && !anyCredHit && sameCredEarlier(expAt, true) {
-			loc.hist["old_password_after_reload (same credentials admitted before a reload, no entry accepts them now)"]++
+			loc.hist["old_password_after_reload"]++ // same credentials admitted before a reload, no entry accepts them now
 		}
 		if !exp.admitted && grantsButPassMismatch && verifiedElsewhere && sameCredEarlier(expAt, false) {
-			loc.hist["password_of_another_entry (same credentials admitted earlier through the entry they belong to)"]++
+			loc.hist["password_of_another_entry_after_verified_there"]++ // same credentials admitted earlier through their own entry
 		}
 		if exp.admitted {
 			for i := 0; i < last; i++ {
@@ -694,16 +822,18 @@ func (ck *checker) runHistory(f *hFamily, steps []int, loc *hLocal) {
 		return strings.Join(parts, "; "), out
 	}
 	report := func(key, what string) {
-		text, out := describe()
-		violation(ck.r, key, fmt.Sprintf("family %s, Manager built with %s: %s: %s [list in force %s: %s]",
-			f.name, f.variants[0].js, text, what, f.variants[cur].kind, ref.why),
-			map[string]any{
-				"phase": "history", "family": f.name, "base_users": json.RawMessage(f.variants[0].js),
-				"steps": out, "failing_step": len(steps),
-				"users_in_force": json.RawMessage(f.variants[cur].js), "list_in_force": f.variants[cur].kind,
-				"observed": got.verdict(), "fresh_manager": exp.verdict(),
-				"reference": [...]string{"reject", "admit", "dontcare"}[ref.want], "why": ref.why,
-			})
+		viols.add(key, [3]int64{int64(len(steps)), item, int64(qi)}, func() (string, any) {
+			text, out := describe()
+			return fmt.Sprintf("family %s, Manager built with %s: %s: %s [list in force %s: %s]",
+					f.name, f.variants[0].js, text, what, f.variants[cur].kind, ref.why),
+				map[string]any{
+					"phase": "history", "family": f.name, "base_users": json.RawMessage(f.variants[0].js),
+					"steps": out, "failing_step": len(steps),
+					"users_in_force": json.RawMessage(f.variants[cur].js), "list_in_force": f.variants[cur].kind,
+					"observed": got.verdict(), "fresh_manager": exp.verdict(),
+					"reference": [...]string{"reject", "admit", "dontcare"}[ref.want], "why": ref.why,
+				}
+		})
 	}
 	switch {
 	case got.admitted && !exp.admitted:
